@@ -5,13 +5,16 @@ from .common import Run, all_flags, corpus_cases, generic_replay
 PROP = "C07"
 MODULE = "PLS.Props.C07"
 THEOREMS = ["PLS.C07_memo_sound", "PLS.C07_memo_read_coherent", "PLS.C07_memo_coherent_step", "PLS.C07_warm_eq_cold",
-            "PLS.C07_removal_without_bump_breaks", "PLS.C07_available_hit", "PLS.C07_close_keeps_index"]
+            "PLS.C07_removal_without_bump_breaks", "PLS.C07_available_hit", "PLS.C07_close_keeps_index",
+            "PLS.C07_evict_keeps_index"]
 RULE = ("twin execution: the same edit history (generator of C06, biased to deletion-only edits, import-only edits of a "
         "conftest, mutually importing modules) is run WARM (after every step: available fixtures for every file, cycle "
         "detection, imported-fixture lookup for every conftest/module in both orders, resolution; random open+close of "
         "unmodified documents) and COLD (analyses only); the final answer battery of both is compared on the "
         "implementation and with the model. Non-trivial = history with a removal, an import toggle or a close; distinct "
-        "by (mutation sequence, closes)")
+        "by (mutation sequence, closes). Plus eviction cases: the workspace followed by 2060 filler modules (file_cache "
+        "exceeds MAX_FILE_CACHE_SIZE, a hash-ordered quarter is evicted — the evicted set is reported by the harness and "
+        "given to the model, for which eviction is closeFile on that set) against the same workspace without pressure")
 
 
 def warm_queries(cases, paths, rng):
@@ -130,10 +133,53 @@ def run(tier, seed):
             final_battery(cases, paths)
             count = cases.idx + 1 - starts[mode]
         pairs.append(("h%dw" % h, starts["warm"], "h%dc" % h, starts["cold"], count, kinds))
+    # pressure-driven eviction: more than MAX_FILE_CACHE_SIZE files are analysed, a quarter of file_cache
+    # (an arbitrary, hash-ordered quarter) is dropped; the answers must equal those of an index that never
+    # came under pressure
+    ne = 2 if tier == "quick" else 6
+    evict_cases = []
+    for e in range(ne):
+        rng = r.rng
+        docs = histgen.initial_docs(rng)
+        if rng.random() < 0.5:
+            docs["a/conftest.py"].blocks.insert(0, {"k": "raw", "text": "from .fx import *"})
+        paths = list(docs.keys())
+        order = list(paths); rng.shuffle(order)
+        texts0 = {p: docs[p].render()[0] for p in paths}
+        starts = {}
+        for mode in ("evict", "cold"):
+            name = "e%d%s" % (e, mode[0])
+            cases.case(name, {"mode": mode})
+            for j, p in enumerate(paths):
+                cases.text("v%d" % j, texts0[p]); cases.raw("disk %s v%d" % (p, j))
+            cases.text("tf", "def test_filler():\n    pass\n")
+            for p in order:
+                cases.op("analyze", p, "v%d" % paths.index(p))
+            nfill = 2060 if mode == "evict" else 4
+            for i in range(nfill):
+                fp = "fill/d%02d/test_f%04d.py" % (i % 40, i)
+                cases.raw("disk %s tf" % fp)
+                cases.op("analyze", fp, "tf")
+            if mode == "evict":
+                evict_cases.append((name, cases.op("evictsync", *paths)))
+            starts[mode] = cases.idx + 1
+            for p in sorted(paths):          # (a lighter battery: every query walks a 2000-file index in the model)
+                cases.q("avail", p); cases.q("imported", p)
+                for n_ in ("foo", "baz", "qux"):
+                    cases.q("resolve", p, n_)
+            cases.q("cycles"); cases.q("unused")
+            count = cases.idx + 1 - starts[mode]
+        pairs.append(("e%de" % e, starts["evict"], "e%dc" % e, starts["cold"], count, ["eviction under pressure (2060 filler files)"]))
     ia, ma, sp = r.run_cases(cases)
     r.evaluations = len(ia)
     r.correspond(cases, ia, ma)
     v = r.verdict
+    for (name, idx) in evict_cases:
+        a = ia.get((name, idx), "")
+        gone = [] if a.endswith("=-") or "evicted=" not in a else a.split("evicted=", 1)[1].split(",")
+        r.stats.setdefault("documents_evicted_under_pressure", []).append(len(gone))
+        if gone:
+            r.nontrivial.add(("evict", name, tuple(gone)))
     ncmp = 0
     for (wn, ws, cn, cs, count, kinds) in pairs:
         for off in range(count):
